@@ -103,14 +103,20 @@ func (ps *ProcessSet) StartAll(ctx context.Context) error {
 	go ps.run(ctx)
 
 	for _, process := range ps.executes {
+		// Subscribe to the process before it starts: a short process may be
+		// over (and a catch event may already be listening, a throw event may
+		// already have fired) before a subscription made afterwards exists, and
+		// the set would then wait for its cease flow trace forever.
+		traces := process.Tracer().Subscribe()
 		err := process.StartAll(ctx)
 		if err != nil {
+			process.Tracer().Unsubscribe(traces)
 			return fmt.Errorf("start process %s: %w", process.Id().String(), err)
 		}
 
 		ps.wg.Add(1)
-		go ps.tracerProcess(ctx, process, &ps.wg)
 		verifhook.Point("pset.afterstart")
+		go ps.tracerProcess(ctx, process, traces, &ps.wg)
 	}
 
 	return nil
@@ -156,13 +162,15 @@ func (ps *ProcessSet) run(ctx context.Context) {
 							continue
 						}
 
+						traces := process.Tracer().Subscribe()
 						err = process.StartWith(ctx, startFlowNode)
 						if err != nil {
+							process.Tracer().Unsubscribe(traces)
 							ps.tracer.Send(ErrorTrace{Error: err})
 							continue
 						}
 						ps.wg.Add(1)
-						go ps.tracerProcess(ctx, process, &ps.wg)
+						go ps.tracerProcess(ctx, process, traces, &ps.wg)
 					}
 					cancel, found := ps.triggerCatch(string(sourceRef.TargetRefField))
 					if found {
@@ -179,11 +187,10 @@ func (ps *ProcessSet) run(ctx context.Context) {
 	}
 }
 
-func (ps *ProcessSet) tracerProcess(ctx context.Context, process *Process, wg *sync.WaitGroup) {
+func (ps *ProcessSet) tracerProcess(ctx context.Context, process *Process, traces chan tracing.ITrace, wg *sync.WaitGroup) {
 	defer wg.Done()
 
 	verifhook.Point("pset.beforesub")
-	traces := process.Tracer().Subscribe()
 	defer process.tracer.Unsubscribe(traces)
 
 LOOP:
